@@ -684,10 +684,13 @@ static void report(const std::vector<Item> &items, const Verdict &v0)
     else
     {
         // every directive is fine alone: the defect is in the sequencing (literal text, state carried between directives)
-        std::string seq;
+        bool has_pc = false, has_lit = false;
         for (const Item &it : items)
-            seq += it.is_dir ? std::string("%") + it.d.conv : std::string(it.lit.empty() ? "" : "L");
-        snprintf(key, sizeof key, "%s:sequence:%s", OUTCOME[v0.o], ndirs ? seq.c_str() : "literal-only");
+        {
+            has_pc |= it.is_dir && it.d.conv == '%';
+            has_lit |= !it.is_dir && !it.lit.empty();
+        }
+        snprintf(key, sizeof key, "%s:sequence:%d-directives%s%s", OUTCOME[v0.o], ndirs, has_pc ? "+%%" : "", has_lit ? "+literal" : "");
         vf::fail_nothrow(key, "format=\"%s\" args=[%s] igris=\"%s\" (ret %d) expected=\"%s\" (ret %d)", full.c_str(), args.c_str(),
                          vf::esc(v0.got.data(), v0.got.size()).c_str(), v0.got_ret, vf::esc(v0.want.data(), v0.want.size()).c_str(), v0.want_ret);
     }
